@@ -7,6 +7,7 @@ import (
 	"fmt"
 	"math/rand"
 	"os"
+	"strings"
 
 	"verif/harness/world"
 )
@@ -64,7 +65,35 @@ func newWorld(sc *Schedule, seed uint64, out *os.File) *world.World {
 	return w
 }
 
+// secretBytes concretises a secret id: equal ids give equal bytes, different ids different
+// bytes; the set covers empty, one byte, 64 KiB, all byte values, one-bit and length differences.
 func secretBytes(id int) []byte {
+	switch id {
+	case 1:
+		return []byte{}
+	case 2:
+		return []byte("x")
+	case 3:
+		b := make([]byte, 65536)
+		for i := range b {
+			b[i] = byte(i*7 + i>>8)
+		}
+		return b
+	case 4:
+		b := make([]byte, 256)
+		for i := range b {
+			b[i] = byte(i)
+		}
+		return b
+	case 5:
+		return []byte("correct horse battery staple")
+	case 6:
+		return []byte("correct horse battery stapld")
+	case 7:
+		return []byte("pass")
+	case 8:
+		return []byte("pass\x00")
+	}
 	return []byte(fmt.Sprintf("smp-secret-%d", id))
 }
 
@@ -158,6 +187,17 @@ func drain(w *world.World, max int) {
 	}
 }
 
+func firstLines(s string, n int) string {
+	out := ""
+	for i, l := range strings.Split(s, "\n") {
+		if i >= n {
+			break
+		}
+		out += l + " | "
+	}
+	return out
+}
+
 func cmdRun(args []string) int {
 	fs := flag.NewFlagSet("run", flag.ExitOnError)
 	sched := fs.String("sched", "", "schedules (NDJSON)")
@@ -207,7 +247,7 @@ func cmdRun(args []string) int {
 		events += w.N
 		n++
 		if len(w.Panics) > 0 {
-			fmt.Printf("PANIC schedule=%s %s\n", s.ID, w.Panics[0])
+			fmt.Printf("PANIC schedule=%s %s\n", s.ID, firstLines(w.Panics[0], 1))
 		}
 	}
 	fmt.Printf("RUN schedules=%d events=%d skipped=%d\n", n, events, skipped)
@@ -268,6 +308,122 @@ func genSchedule(rng *rand.Rand, family string, depth int) *Schedule {
 	text := 0
 	add := func(s Step) { sc.Steps = append(sc.Steps, s) }
 	switch family {
+	case "smp":
+		// SMP runs (equal / different secrets, with / without question, either initiator,
+		// back to back, aborted, answered late) interleaved with ordinary traffic
+		sc.Setup = "ake"
+		if rng.Intn(3) == 0 {
+			add(Step{A: "SMPAnswer", P: ps[rng.Intn(2)], S: 1})
+		}
+		for d := 0; d < depth; d++ {
+			if rng.Intn(10) == 0 {
+				// end the session, answer into the void, start again
+				q := ps[rng.Intn(2)]
+				add(Step{A: "End", P: q})
+				add(Step{A: "SMPAnswer", P: q, S: 1})
+				add(Step{A: "Deliver", P: "A"})
+				add(Step{A: "Deliver", P: "B"})
+				add(Step{A: "SMPAnswer", P: "A", S: 1})
+				add(Step{A: "SMPStart", P: "B", S: 1})
+				add(Step{A: "End", P: "A"})
+				add(Step{A: "End", P: "B"})
+				add(Step{A: "Tick", P: "A"})
+				add(Step{A: "Tick", P: "B"})
+				add(Step{A: "Query", P: q})
+				for k := 0; k < 6; k++ {
+					add(Step{A: "Deliver", P: "A"})
+					add(Step{A: "Deliver", P: "B"})
+				}
+			}
+			ini := ps[rng.Intn(2)]
+			oth := "B"
+			if ini == "B" {
+				oth = "A"
+			}
+			s1 := 1 + rng.Intn(8)
+			s2 := s1
+			if rng.Intn(3) == 0 {
+				s2 = 1 + rng.Intn(8)
+			}
+			traffic := func() {
+				for k := 0; k < rng.Intn(3); k++ {
+					text++
+					q := ps[rng.Intn(2)]
+					add(Step{A: "Send", P: q, T: text})
+					if rng.Intn(2) == 0 {
+						add(Step{A: "Deliver", P: "A"})
+						add(Step{A: "Deliver", P: "B"})
+					}
+				}
+			}
+			add(Step{A: "SMPStart", P: ini, S: s1, Q: rng.Intn(2) == 0})
+			traffic()
+			add(Step{A: "Deliver", P: oth})
+			switch rng.Intn(8) {
+			case 0:
+				add(Step{A: "SMPAbort", P: ps[rng.Intn(2)]})
+			case 1:
+				add(Step{A: "SMPStart", P: oth, S: s2})
+			}
+			traffic()
+			add(Step{A: "SMPAnswer", P: oth, S: s2})
+			for k := 0; k < 4; k++ {
+				traffic()
+				add(Step{A: "Deliver", P: ini})
+				add(Step{A: "Deliver", P: oth})
+			}
+			if rng.Intn(6) == 0 {
+				add(Step{A: "SMPAnswer", P: ps[rng.Intn(2)], S: s1})
+			}
+		}
+		return sc
+	case "smpdev":
+		// one deviant SMP message per round (any of the four messages, any field / boundary value /
+		// miscount), then an honest run with equal secrets that must succeed
+		sc.Setup, sc.Fam = "ake", "smpdev"
+		for d := 0; d < depth; d++ {
+			ini, oth := "A", "B"
+			if rng.Intn(2) == 0 {
+				ini, oth = "B", "A"
+			}
+			which := rng.Intn(4)
+			variant := rng.Intn(100000)
+			add(Step{A: "SMPStart", P: ini, S: 1, Q: rng.Intn(2) == 0})
+			if which == 0 {
+				add(Step{A: "SMPTamper", P: oth, I: variant})
+			} else {
+				add(Step{A: "Deliver", P: oth})
+			}
+			add(Step{A: "SMPAnswer", P: oth, S: 1})
+			if which == 1 {
+				add(Step{A: "SMPTamper", P: ini, I: variant})
+			} else {
+				add(Step{A: "Deliver", P: ini})
+			}
+			if which == 2 {
+				add(Step{A: "SMPTamper", P: oth, I: variant})
+			} else {
+				add(Step{A: "Deliver", P: oth})
+			}
+			if which == 3 {
+				add(Step{A: "SMPTamper", P: ini, I: variant})
+			} else {
+				add(Step{A: "Deliver", P: ini})
+			}
+			for k := 0; k < 3; k++ {
+				add(Step{A: "Deliver", P: "A"})
+				add(Step{A: "Deliver", P: "B"})
+			}
+			// the honest run
+			add(Step{A: "SMPStart", P: oth, S: 5})
+			add(Step{A: "Deliver", P: ini})
+			add(Step{A: "SMPAnswer", P: ini, S: 5})
+			for k := 0; k < 3; k++ {
+				add(Step{A: "Deliver", P: "A"})
+				add(Step{A: "Deliver", P: "B"})
+			}
+		}
+		return sc
 	case "pingpong":
 		sc.Setup, sc.Fam = "ake", "fifo-data"
 		for d := 0; d < depth; d++ {
